@@ -88,6 +88,27 @@ func (e *executor) dialOp(t []string) (string, bool) {
 		}
 		return "plan=error:" + err.Error(), true
 	}
+	// an application reuses its DialConfig: before this client's handshake starts, the same config dials a second
+	// (decoy) server. Nothing of that second dial may show in this client's ClientHello, and the caller's config
+	// must stay as the caller wrote it.
+	decoyNote := ""
+	if u.Scheme == stun.SchemeTypeSTUNS || u.Scheme == stun.SchemeTypeTURNS {
+		decoyHost := "decoy.invalid.example"
+		if net.ParseIP(host) != nil || u.Proto == stun.ProtoTypeUDP {
+			decoyHost = "127.0.0.9"
+		}
+		nw2 := &fakeNet{}
+		cfg.Net = nw2
+		d := &stun.URI{Scheme: u.Scheme, Proto: u.Proto, Host: decoyHost, Port: u.Port}
+		if c2, err2 := stun.DialURI(d, cfg); err2 == nil {
+			defer c2.Close() //nolint:errcheck
+		}
+		cfg.Net = nw
+		if cfg.TLSConfig.ServerName != "" || cfg.DTLSConfig.ServerName != "" {
+			decoyNote = " callers-config-was-modified"
+			cfg.TLSConfig.ServerName, cfg.DTLSConfig.ServerName = "", ""
+		}
+	}
 	// make the client write: plaintext STUN shows a STUN header, a secure transport shows a ClientHello first
 	m := stun.MustBuild(stun.TransactionID, stun.BindingRequest)
 	go c.Indicate(m) //nolint:errcheck
@@ -106,7 +127,9 @@ func (e *executor) dialOp(t []string) (string, bool) {
 		switch {
 		case first[0] == 22: // TLS / DTLS handshake record
 			kind = "hello"
-			if bytes.Contains(first, []byte(host)) && net.ParseIP(host) == nil {
+			if bytes.Contains(first, []byte("decoy.invalid.example")) {
+				sni = "another-dials-server-name"
+			} else if bytes.Contains(first, []byte(host)) && net.ParseIP(host) == nil {
 				sni = "host"
 			} else if net.ParseIP(host) != nil {
 				sni = "ip" // no SNI extension for IP literals (RFC 6066)
@@ -134,5 +157,5 @@ func (e *executor) dialOp(t []string) (string, bool) {
 	default:
 		plan = "unexpected:" + kind + ":" + call
 	}
-	return "plan=" + plan + " sni=" + sni, true
+	return "plan=" + plan + " sni=" + sni + decoyNote, true
 }
